@@ -136,8 +136,8 @@ def check(res, tier, seed):
         binary = C.build_harness(wd, race=True)
         n = 16 if tier == "quick" else 120
         # concurrent workloads, and teardown paths with peers that keep sending (late responses racing Close)
-        for fams in (["conc", "closures", "hub", "nest", "streamtear", "bursteof", "linkend", "cancel", "relay", "enumrace", "sharedhooks"],):
-            recs, rc, o = C.run_job(binary, wd, "race", dict(family="sys", seed=seed, n=n, cases=fams, params=dict(percase=10)), timeout=1500,
+        for fams in (["conc", "closures", "hub", "nest", "streamtear", "bursteof", "linkend", "cancel", "relay", "enumrace", "sharedhooks", "closurestress"],):
+            recs, rc, o = C.run_job(binary, wd, "race", dict(family="sys", seed=seed, n=n, cases=fams, params=dict(percase=10, workers=8, perworker=25)), timeout=1500,
                                     env_extra=dict(GORACE="halt_on_error=0"))
             for m in re.finditer(r"WARNING: DATA RACE.*?={18}", o, re.S):
                 rep = m.group(0)
